@@ -130,6 +130,9 @@ def parse_iso8601(
             if not m.group("weeksep") and m.group("weekdaysep"):
                 raise ParserError(f"Invalid date string: {text}")
 
+            if m.group("weekdaysep") and not m.group("isoweekday"):
+                raise ParserError(f"Invalid date string: {text}")
+
             try:
                 date = _get_iso_8601_week(
                     m.group("isoyear"), m.group("isoweek"), m.group("isoweekday")
